@@ -333,6 +333,9 @@ class FsRun:
                 paths.append(p)
                 Y()
                 os.mkdir(r(p))
+            for lvl, dn in (op[4] if len(op) > 4 else []):
+                Y()
+                os.mkdir(r(paths[lvl] + "/" + dn))
             for lvl, fn in op[3]:
                 Y()
                 with open(r(paths[lvl] + "/" + fn), "w"):
